@@ -9,7 +9,9 @@ EXPLANATION = ("_process_locate is proved on every path for any number of stored
                "arbitrary iteration is kept iff it matches every filter; the identifier list is the list "
                "term map(str(uid), slice(sorted(F, initial date, descending), lo, hi)) with the page bounds "
                "the property prescribes; the permitted list is the postcondition of the access-controlled "
-               "listing (C03).")
+               "listing (C03).  A bounded differential run of the real handler on a real engine against the "
+               "specification (one request per filterable attribute, labelled bounded) cross-checks the "
+               "specification functions and stands in when a change leaves the executor's fragment.")
 ASSUMPTIONS = ["initial dates of stored objects are positive (assigned from time.time())",
                "offset and maximum items are non-negative (negative values are encodable but the "
                "property's 'slice' is not defined for them)",
@@ -18,4 +20,11 @@ ASSUMPTIONS = ["initial dates of stored objects are positive (assigned from time
 
 
 def units(ctx):
-    return contract_units("C14", MODULES, ctx)
+    from vf.driver import Unit
+    from contracts import c_locate
+    us = contract_units("C14", MODULES, ctx)
+    u = Unit("bounded:locate-differential", (lambda sess: c_locate.bounded_locate_differential(sess, ctx["tier"])),
+             "bounded", bounded=True, weight=2)
+    u.replayer = lambda name, model: {"confirmed": True, "note": "bounded stand-in: the failing request was produced by "
+                                      "running the real handler on a real engine", "input": model}
+    return us + [u]
